@@ -7,7 +7,7 @@ import build as B
 import nav_hist as NH
 import common as H
 from common import Case
-from props.C15 import call, onat, bl
+from props.C15 import call as _call, onat, bl
 
 
 #: cross-tree pair queries are asked for trees up to this size
@@ -303,6 +303,7 @@ class Prop:
             return [lid(y) for y in x]
 
         typed = bool(desc.get("typed"))
+        call, battery_changed_tree = NH.guarded_call(tree, _call)     # the structure is re-read after every single query
         # TypedNode overrides the child / sibling accessors with a mandatory kind / an any_kind flag (default False);
         # the plain relationship queries of a typed tree are their ANY_KIND / any_kind=True forms
         KA = (H.ANY_KIND,) if typed else ()
@@ -377,7 +378,7 @@ class Prop:
                         if r is not None:
                             cross.append([i + 1, j + 1, code])
         obs = [per_node, pairs, num(call(lambda: tree.calc_height())), tree_obs, cross]
-        fail = self.oracle(tree, nodes, obs, lid) or (NH.typed_consistency(tree) if typed else None)
+        fail = battery_changed_tree() or self.oracle(tree, nodes, obs, lid) or (NH.typed_consistency(tree) if typed else None)
         coq_in = re.sub(r"\(Tz (\d+) ", lambda m: f"(Tz {local[int(m.group(1))]} ", H.coq_forest(tree._root, U))
         return obs, fail, nodes, coq_in
 
